@@ -463,10 +463,11 @@ def merge_projections(arr):
     if len(arr) == 1 or not has_none(arr[0]):
         return arr[0]
     sparse_fa = np.copy(arr[0])
-    i = 0
     k = 1
-    while i < len(sparse_fa) and k < len(arr):
+    while k < len(arr):
+        # every further argument list fills the holes that are still open, from the left
         fa = arr[k]
+        i = 0
         j = 0
         while i < len(sparse_fa) and j < len(fa):
             if sparse_fa[i] is None:
